@@ -228,8 +228,17 @@ def mk_fs(A, name, r, copy=True):
 # model functions (module level: their identity is stable over a run)
 
 def _grid(pts, kind=None):
+    """kind: None default_grid | 'lin' uniform | 'sq' quadratically spaced | 'bump<k>' default grid with interior point k moved
+    half way to its right neighbour (same length, same end points, still increasing)"""
     if kind == 'lin':
         return np.linspace(0, 1, pts)
+    if kind == 'sq':
+        return np.linspace(0, 1, pts) ** 2
+    if kind and kind.startswith('bump'):
+        xx = np.array(Numerics.default_grid(pts), dtype=float)
+        k = 1 + (int(kind[4:] or 1) - 1) % (pts - 2)
+        xx[k] = 0.5 * (xx[k] + xx[k + 1])
+        return xx
     return Numerics.default_grid(pts)
 
 def model_m3(params, ns, pts):
@@ -266,7 +275,13 @@ def model_m5(params, ns, pts):
 def model_two_epoch_theta(params, ns, pts):
     return params[2] * dadi.Demographics1D.two_epoch(params[:2], ns, pts)
 
+def model_split_mig_sw(params, ns, pts):
+    """a second two-population model with the parameter list of split_mig (population sizes exchanged)"""
+    nu1, nu2, T, m = params
+    return dadi.Demographics2D.split_mig([nu2, nu1, T, m], ns, pts)
+
 MODELS = {
+    'split_mig_sw': model_split_mig_sw,
     'snm_1d': dadi.Demographics1D.snm_1d, 'two_epoch': dadi.Demographics1D.two_epoch, 'growth': dadi.Demographics1D.growth,
     'bottlegrowth_1d': dadi.Demographics1D.bottlegrowth_1d, 'three_epoch': dadi.Demographics1D.three_epoch,
     'snm_2d': dadi.Demographics2D.snm_2d, 'split_mig': dadi.Demographics2D.split_mig, 'IM': dadi.Demographics2D.IM,
@@ -290,6 +305,15 @@ def demes_graph(kind):
         b.add_deme('c1', ancestors=['P'], epochs=[dict(start_size=300, end_time=0)])
         b.add_migration(source='X', dest='c0', rate=1e-3)
         return b.resolve()
+    if kind.startswith('split2:'):
+        # anc splits into A and B; the size of B is the parameter (two graphs that differ in one number, same deme names)
+        size_b = float(kind.split(':')[1])
+        b = demes.Builder(time_units='generations')
+        b.add_deme('anc', epochs=[dict(start_size=1000, end_time=300)])
+        b.add_deme('A', ancestors=['anc'], epochs=[dict(start_size=2000, end_time=0)])
+        b.add_deme('B', ancestors=['anc'], epochs=[dict(start_size=size_b, end_time=0)])
+        b.add_migration(source='A', dest='B', rate=1e-3)
+        return b.resolve()
     raise ValueError(kind)
 
 # ------------------------------------------------------------------------------------------------------------------
@@ -304,6 +328,14 @@ def b_sp(A, s):
         import operator
         f = {'add': operator.add, 'sub': operator.sub, 'mul': operator.mul, 'div': operator.truediv}[m]
         return lambda: f(fs, other)
+    if m in ('to_file', 'tofile', 'array_to_file'):
+        # the result is the TEXT written (the layout differential hands the exporter a spectrum over non-contiguous data)
+        def thunk():
+            x = fs
+            if s.get('plain'):
+                x = np.ma.getdata(fs) if s['plain'] == 'ndarray' else np.ma.masked_array(np.ma.getdata(fs), mask=np.ma.getmaskarray(fs))
+            return _export_text(m, x, s.get('precision', 16), ['C20'], s.get('foldmaskinfo', True))
+        return thunk
     if m == 'sum':
         return lambda: fs.sum()
     return lambda: getattr(fs, m)(*a)
@@ -314,20 +346,25 @@ def b_dd(A, s):
         dd[sid] = {'segregating': tuple(seg), 'calls': {p: tuple(c) for p, c in calls.items()}, 'outgroup_allele': og,
                    'context': '-' + seg[0] + '-', 'outgroup_context': '-' + og + '-'}
     A.keep('dd', dd); pop_ids = A.keep('pop_ids', list(s['pop_ids'])); proj = A.keep('proj', list(s['proj']))
-    return lambda: Spectrum.from_data_dict(dd, pop_ids, proj, polarized=s.get('polarized', True))
+    return lambda: Spectrum.from_data_dict(dd, pop_ids, proj, mask_corners=s.get('mask_corners', True), polarized=s.get('polarized', True))
 
 def b_from_phi(A, s):
     d, pts = s['d'], s['pts']
-    xx0 = _grid(pts, s.get('grid'))
+    kinds = s.get('grids') or [s.get('grid')] * d
     phi = A.arr('phi', mk_phi(s['phi'], pts, d))
-    xxs = [A.arr('xx%d' % i, xx0) for i in range(d)]
+    xxs = [A.arr('xx%d' % i, _grid(pts, kinds[i])) for i in range(d)]
     A.keep('xxs', xxs)
     ns = A.keep('ns', list(s['ns']))
+    admix = A.keep('admix_props', copy.deepcopy(s.get('admix'))) if s.get('admix') else None
     if s.get('inb'):
         Fs = A.keep('Fs', list(s['Fs'])); pl = A.keep('ploidys', list(s['ploidys']))
-        return lambda: Spectrum.from_phi_inbreeding(phi, ns, xxs, Fs, pl, mask_corners=s.get('mask_corners', True))
+        kw = {}
+        if 'force' in s:
+            kw['force_direct'] = s['force']
+        return lambda: Spectrum.from_phi_inbreeding(phi, ns, xxs, Fs, pl, mask_corners=s.get('mask_corners', True), pop_ids=s.get('pop_ids'),
+                                                    admix_props=admix, het_ascertained=s.get('het'), **kw)
     return lambda: Spectrum.from_phi(phi, ns, xxs, mask_corners=s.get('mask_corners', True), pop_ids=s.get('pop_ids'),
-                                     force_direct=s.get('force', False), het_ascertained=s.get('het'))
+                                     admix_props=admix, force_direct=s.get('force', False), het_ascertained=s.get('het'))
 
 INTEG = {1: 'one_pop', 2: 'two_pops', 3: 'three_pops', 4: 'four_pops', 5: 'five_pops'}
 
@@ -402,9 +439,19 @@ def b_model(A, s):
     pts = s['pts']
     if isinstance(pts, list):
         pts = A.keep('pts', list(pts))
-        fe = Numerics.make_extrap_func(f) if not s.get('log') else Numerics.make_extrap_log_func(f)
+        if s.get('shared_ex'):
+            fe = MODELS_EX[s['kind']]       # the extrapolating function made ONCE per process (as in a user script): whatever it closes over is shared by all its calls
+        else:
+            fe = Numerics.make_extrap_func(f) if not s.get('log') else Numerics.make_extrap_log_func(f)
         return lambda: fe(p, ns, pts)
     return lambda: f(p, ns, pts)
+
+def _lp_seed(seed):
+    """the simulated low-pass entries draw from LowPass.rng (a module-level numpy Generator seeded from the OS at import) and
+    from numpy's global generator: both are random SOURCES, not memoised state - the driver fixes them before the call"""
+    np.random.seed(seed)
+    if hasattr(LP, 'rng'):
+        LP.rng = np.random.default_rng(seed)
 
 def mkcov(probs):
     return np.array([np.arange(len(probs)), np.array(probs, dtype=float)])
@@ -424,18 +471,30 @@ def b_lp(A, s):
         return lambda: LP.probability_enough_individuals_covered(cov, s['nseq'], s['nsub'])
     if f == 'func':
         pops = s['pops']
-        ids = ['p%d' % i for i in range(len(pops))]
-        covd = {i: A.arr('cov_' + i, mkcov(p['cov'])) for i, p in zip(ids, pops)}
+        names = s.get('names') or ['p%d' % i for i in range(len(pops))]        # keys of the cov_dist dictionary
+        ids = A.keep('pop_ids', list(s.get('pop_ids') or names))              # the pop_ids argument
+        covd = {i: A.arr('cov_' + i, mkcov(p['cov'])) for i, p in zip(names, pops)}
         A.keep('cov_dist', covd)
         nseq = A.keep('nseq', [p['nseq'] for p in pops]); nsub = A.keep('nsub', [p['nsub'] for p in pops])
         Fx = A.keep('Fx', [p['F'] for p in pops]) if not s.get('Fx_none') else None
         model = MODELS[s['kind']]
+        thr = s.get('sim_threshold', 1); nsim = s.get('nsim', 1000)
+        if 'evals' in s:
+            # ONE generated function evaluated for several (params, ns, pts) in a row: the closure-level cache is shared
+            evals = A.keep('evals', copy.deepcopy(s['evals']))
+            def thunk_multi():
+                _lp_seed(s.get('seed', 7))
+                lf = LP.make_low_pass_func_GATK_multisample(model, covd, ids, nseq, nsub, sim_threshold=thr, Fx=Fx, nsim=nsim)
+                return [lf(e[0], e[1], e[2]) for e in evals]
+            return thunk_multi
         p = A.keep('params', list(s['p']))
         pts = s['pts']
+        ns = A.keep('ns', list(s['ns'])) if 'ns' in s else nsub
         def thunk():
-            lf = LP.make_low_pass_func_GATK_multisample(model, covd, ids, nseq, nsub, sim_threshold=1, Fx=Fx)
-            r1 = lf(p, nsub, pts)
-            r2 = lf(p, nsub, pts)       # second evaluation is answered from the closure's precalc_cache
+            _lp_seed(s.get('seed', 7))
+            lf = LP.make_low_pass_func_GATK_multisample(model, covd, ids, nseq, nsub, sim_threshold=thr, Fx=Fx, nsim=nsim)
+            r1 = lf(p, ns, pts)
+            r2 = lf(p, ns, pts)       # second evaluation is answered from the closure's precalc_cache
             return [r1, r2]
         return thunk
     raise ValueError(f)
@@ -444,6 +503,9 @@ def b_num(A, s):
     f = s['f']; a = A.keep('a', copy.deepcopy(s['a']))
     if f == 'bbconv':
         return lambda: Numerics.BetaBinomConvolution(*a)
+    if f == 'cached_dbeta':
+        xx = A.arr('xx', _grid(a[1]['pts'], a[1].get('kind')))
+        return lambda: Spectrum_mod.cached_dbeta(a[0], xx)
     if f == 'bbconv_all':
         n, pl, al, be = a
         return lambda: [Numerics.BetaBinomConvolution(i, float(n), al, be, ploidy=pl) for i in range(n * pl + 1)]
@@ -474,9 +536,11 @@ def b_opt(A, s):
         fixed = A.keep('fixed_params', copy.deepcopy(s.get('fixed')))
         fe = MODELS_EX[s['kind']]
         pts = A.keep('pts', list(s['pts']))
-        return lambda: Inference._object_func(params, data, fe, pts, lower_bound=lb, upper_bound=ub, verbose=0,
+        okw = {'verbose': 0}
+        okw.update(s.get('kw', {}))
+        return lambda: Inference._object_func(params, data, fe, pts, lower_bound=lb, upper_bound=ub,
                                               multinom=s.get('multinom', True), fixed_params=fixed,
-                                              output_stream=io.StringIO())
+                                              output_stream=io.StringIO(), **okw)
     if f == 'optimize_log':
         p0 = A.keep('p0', list(s['params']))
         data = mk_fs(A, 'data', s['data'])
@@ -505,13 +569,15 @@ def b_gim(A, s):
         def run(p0):
             return Godambe.LRT_adjust(fe, pts, boots, p0, data, nested, **kw)
         return lambda: [run(p0) for p0 in p0s]
+    bta = A.keep('boot_theta_adjusts', list(s['boot_theta_adjusts'])) if s.get('boot_theta_adjusts') else None
     if f == 'FIM':
-        return lambda: Godambe.FIM_uncert(fe, pts, p0, data, log=s.get('log', False), **kw)
+        return lambda: Godambe.FIM_uncert(fe, pts, p0, data, log=s.get('log', False), return_FIM=s.get('return_mat', False), **kw)
     if f == 'GIM':
-        return lambda: Godambe.GIM_uncert(fe, pts, boots, p0, data, log=s.get('log', False), **kw)
+        return lambda: Godambe.GIM_uncert(fe, pts, boots, p0, data, log=s.get('log', False), return_GIM=s.get('return_mat', False),
+                                          boot_theta_adjusts=bta, **kw)
     if f == 'LRT':
         nested = A.keep('nested_indices', list(s['nested']))
-        return lambda: Godambe.LRT_adjust(fe, pts, boots, p0, data, nested, **kw)
+        return lambda: Godambe.LRT_adjust(fe, pts, boots, p0, data, nested, boot_theta_adjusts=bta, **kw)
     raise ValueError(f)
 
 PATCHED = []
@@ -523,7 +589,13 @@ def b_demes(A, s):
     else:
         g = demes_graph(s['builder'])
     if not s.get('contig_patch'):
-        return lambda: Spectrum.from_demes(g, sampled_demes=sd, sample_sizes=sz, pts=pts)
+        kw = {}
+        if 'log_extrap' in s:
+            kw['log_extrap'] = s['log_extrap']
+        if 'Ne' in s:
+            kw['Ne'] = s['Ne']
+        kw.update(s.get('kw', {}))
+        return lambda: Spectrum.from_demes(g, sampled_demes=sd, sample_sizes=sz, pts=pts, **kw)
     def thunk():
         # attribution only: the same call with every non-contiguous phi made contiguous before it reaches an integrator
         saved = {}
@@ -544,7 +616,88 @@ def b_demes(A, s):
                 setattr(Integration, name, f)
     return thunk
 
-BUILDERS = {'sp': b_sp, 'dd': b_dd, 'from_phi': b_from_phi, 'integ': b_integ, 'pm': b_pm, 'model': b_model, 'lp': b_lp,
+def _export_text(how, x, precision, comments, foldmaskinfo=True):
+    """the TEXT an exporter writes for x"""
+    import tempfile
+    if how in ('to_file', 'tofile'):
+        fd, path = tempfile.mkstemp(suffix='.fs', prefix='c20_')
+        os.close(fd)
+        try:
+            getattr(x, how)(path, precision=precision, comment_lines=comments, foldmaskinfo=foldmaskinfo)
+            with open(path) as f:
+                return f.read()
+        finally:
+            os.unlink(path)
+    if how == 'array_to_file':
+        # an open file object (ndarray.tofile needs a real file descriptor)
+        fd, path = tempfile.mkstemp(suffix='.txt', prefix='c20_')
+        os.close(fd)
+        try:
+            with open(path, 'w') as f:
+                Numerics.array_to_file(x, f, precision=precision, comment_lines=comments)
+            with open(path) as f:
+                return f.read()
+        finally:
+            os.unlink(path)
+    if how == 'array_to_file_path':
+        fd, path = tempfile.mkstemp(suffix='.txt', prefix='c20_')
+        os.close(fd)
+        try:
+            Numerics.array_to_file(x, path, precision=precision, comment_lines=comments)
+            with open(path) as f:
+                return f.read()
+        finally:
+            os.unlink(path)
+    raise ValueError(how)
+
+def _contig_twin(x):
+    """same logical content in a freshly allocated C-contiguous buffer (Spectrum attributes kept)"""
+    if isinstance(x, Spectrum):
+        y = Spectrum(np.array(np.ma.getdata(x), dtype=float, order='C', copy=True), mask=np.array(np.ma.getmaskarray(x), order='C', copy=True),
+                     mask_corners=False, data_folded=x.folded, check_folding=False, pop_ids=None if x.pop_ids is None else list(x.pop_ids))
+        y.extrap_x = getattr(x, 'extrap_x', None)
+        return y
+    if isinstance(x, np.ma.MaskedArray):
+        return np.ma.masked_array(np.array(np.ma.getdata(x), order='C', copy=True), mask=np.array(np.ma.getmaskarray(x), order='C', copy=True))
+    return np.array(x, order='C', copy=True)
+
+def b_export(A, s):
+    """write a spectrum / array that reaches the exporter as a NON-contiguous view; the result is the pair
+    (text written for the view, text written for its C-contiguous copy) - the property wants them equal"""
+    fs = mk_fs(A, 'self', s['fs'])
+    pre = s.get('pre')
+    how = s['how']
+    prec = s.get('precision', 16); comments = A.keep('comment_lines', list(s.get('comments', [])))
+    def view():
+        x = fs
+        if pre is None:
+            return x
+        if pre[0] == 'reorder_pops':
+            return x.reorder_pops(list(pre[1]))
+        if pre[0] == 'transpose':
+            return x.transpose()
+        if pre[0] == 'swapaxes':
+            return x.swapaxes(pre[1], pre[2])
+        if pre[0] == 'flip':
+            return x[tuple(slice(None, None, -1) for _ in x.shape)]
+        if pre[0] == 'step':
+            return x[tuple(slice(None, None, 2) for _ in x.shape)]
+        if pre[0] == 'fortran':
+            return Spectrum(np.asfortranarray(np.ma.getdata(x)), mask=np.asfortranarray(np.ma.getmaskarray(x)), mask_corners=False,
+                            data_folded=x.folded, check_folding=False, pop_ids=x.pop_ids, copy=False) if isinstance(x, Spectrum) else np.asfortranarray(x)
+        raise ValueError(pre)
+    def thunk():
+        x = view()
+        if how.startswith('array_to_file') and s.get('plain'):
+            x = np.ma.getdata(x) if s['plain'] == 'ndarray' else np.ma.masked_array(np.ma.getdata(x), mask=np.ma.getmaskarray(x))
+        t_view = _export_text(how, x, prec, comments, s.get('foldmaskinfo', True))
+        t_twin = _export_text(how, _contig_twin(x), prec, comments, s.get('foldmaskinfo', True))
+        data = np.ma.getdata(x)
+        return {'text': t_view, 'text_contiguous_copy': t_twin, 'c_contiguous': bool(data.flags['C_CONTIGUOUS']),
+                'f_contiguous': bool(data.flags['F_CONTIGUOUS']), 'strides': [int(v) for v in data.strides]}
+    return thunk
+
+BUILDERS = {'export': b_export, 'sp': b_sp, 'dd': b_dd, 'from_phi': b_from_phi, 'integ': b_integ, 'pm': b_pm, 'model': b_model, 'lp': b_lp,
             'num': b_num, 'll': b_ll, 'opt': b_opt, 'gim': b_gim, 'demes': b_demes}
 
 # ------------------------------------------------------------------------------------------------------------------
@@ -558,6 +711,25 @@ def cache_table():
             'Numerics._projection_cache': Numerics._projection_cache,
             'Spectrum_mod._dbeta_cache': Spectrum_mod._dbeta_cache,
             'Godambe.cache': Godambe.cache}
+
+def discovered_dicts():
+    """every dictionary found at module level of an imported dadi module that is not in the table above (a cache added to
+    the source shows up here); used by the diagnosis only"""
+    known = set(id(d) for d in cache_table().values())
+    out = {}
+    for mname, m in sorted(sys.modules.items()):
+        if m is None or not (mname == 'dadi' or mname.startswith('dadi.')):
+            continue
+        for attr, val in sorted(vars(m).items()):
+            if isinstance(val, dict) and id(val) not in known and not (attr.startswith('__') and attr.endswith('__')) and attr not in _NONEMPTY_AT_IMPORT.get(mname, ()):
+                known.add(id(val))
+                out[mname.replace('dadi.', '', 1) + '.' + attr] = val
+    return out
+
+_NONEMPTY_AT_IMPORT = {}
+for _mn, _m in list(sys.modules.items()):
+    if _m is not None and (_mn == 'dadi' or _mn.startswith('dadi.')):
+        _NONEMPTY_AT_IMPORT[_mn] = set(a for a, v in vars(_m).items() if isinstance(v, dict) and len(v) > 0)
 
 MEMO = [  # (cache name, module, function name, key function of the positional/keyword arguments)
     ('Numerics._multinomln_cache', Numerics, 'multinomln', lambda N: tuple(N)),
@@ -703,8 +875,11 @@ def evaluate(spec, layout=None, full=False):
                 al.append(n)
     rec['aliased'] = al
     rec['result_is_arg'] = [n for n in A.alias_check if res is A.frozen[n]]
-    if spec.get('seq') and isinstance(res, list):
+    if (spec.get('seq') or 'evals' in spec) and isinstance(res, list):
         rec['elements'] = [digest(canon(x)) for x in res]
+    if spec['op'] == 'export' and isinstance(res, dict):
+        rec['export'] = {'same_text': res['text'] == res['text_contiguous_copy'], 'c_contiguous': res['c_contiguous'], 'f_contiguous': res['f_contiguous'],
+                         'strides': res['strides'], 'text': res['text'][:600], 'text_contiguous_copy': res['text_contiguous_copy'][:600]}
     if spec.get('contig_patch'):
         rec['patched'] = sorted(set(PATCHED)); del PATCHED[:]
     if full:
@@ -764,11 +939,13 @@ def mode_diagnose(p):
     for spec in calls[:k]:
         evaluate(spec)
     tab = cache_table()
+    tab.update(discovered_dicts())
     saved = {n: dict(d) for n, d in tab.items()}
     def restore():
         for n, d in tab.items():
             d.clear(); d.update(saved[n])
     res = {}
+    res['sizes_before'] = {n: len(d) for n, d in tab.items() if len(d)}
     r, c, _ = evaluate(calls[k]); res['as_is'] = r['digest']
     restore()
     for d in tab.values():
@@ -802,7 +979,11 @@ def mode_batch(p):
             if pid == 0:
                 os.close(r)
                 try:
-                    data = json.dumps(dispatch(jobs[nxt])).encode()
+                    import time as _t
+                    _t0 = _t.time()
+                    _res = dispatch(jobs[nxt])
+                    _res['secs'] = round(_t.time() - _t0, 3)
+                    data = json.dumps(_res).encode()
                 except BaseException as e:
                     import traceback
                     data = json.dumps({'crash': traceback.format_exc()[-1500:]}).encode()
